@@ -202,6 +202,8 @@ func checkC05(r *core.Run) {
 	r.Assume(aDeps)
 	r.Assume(aCG)
 	ruleFlows(r, "C05")
+	r.Rule("T-persist (shared with C16): what a rollback (or any other function) assigns on its local copy of a stored data-model record — directly or through a helper that receives a pointer to it — is written back on every success path")
+	rulePersisted(r, "T-persist", "model/types.Metadata")
 	r.Rule("T-aliaskey: the alias entry removed on rollback/deletion is addressed by the same key expression under which NewMeta wrote it")
 	ruleAliasKeyShape(r, "T-aliaskey")
 	rb := "model/keeper.Keeper.RollbackMeta"
